@@ -7,557 +7,23 @@ import (
 	"context"
 	"encoding/json"
 	"fmt"
-	"math/rand"
 	"regexp"
-	"sort"
 	"strings"
-	"time"
 
-	"github.com/attestantio/go-eth2-client/spec/bellatrix"
-	"github.com/attestantio/go-eth2-client/spec/phase0"
-	"github.com/attestantio/vouch/services/beaconblockproposer"
 	"github.com/attestantio/vouch/services/blockrelay"
-	"github.com/shopspring/decimal"
-	e2wtypes "github.com/wealdtech/go-eth2-wallet-types/v2"
+	"verif/checks/refcfg"
 	"verif/harness"
 )
-
-// ---- generated document model (version 2) ----
-
-type opts struct {
-	FR    *int    // fee recipient id
-	GL    *uint64 // gas limit
-	Grace *int64  // ms
-	Min   *string // ETH decimal string
-}
-
-type relay struct {
-	opts
-	Pub      *int
-	Disabled bool
-}
-
-type proposer struct {
-	Proposer string // as written in the document
-	KeyNo    int    // >=0: public key entry
-	opts
-	Reset  bool
-	Relays map[string]*relay
-}
-
-type doc2 struct {
-	opts
-	Relays    map[string]*relay
-	Proposers []*proposer
-}
-
-func frHex(id int) string {
-	var a bellatrix.ExecutionAddress
-	for i := range a {
-		a[i] = byte(id)
-	}
-	a[0] = 0xf0 | byte(id>>8)
-	return fmt.Sprintf("%#x", a)
-}
-
-func frAddr(id int) bellatrix.ExecutionAddress {
-	var a bellatrix.ExecutionAddress
-	for i := range a {
-		a[i] = byte(id)
-	}
-	a[0] = 0xf0 | byte(id>>8)
-	return a
-}
-
-func pubOf(n int) phase0.BLSPubKey {
-	var p phase0.BLSPubKey
-	for i := range p {
-		p[i] = byte(n + 1)
-	}
-	p[0] = 0x80 | byte(n)
-	return p
-}
-
-func (o *opts) fields() []string {
-	var f []string
-	if o.FR != nil {
-		f = append(f, fmt.Sprintf(`"fee_recipient":"%s"`, frHex(*o.FR)))
-	}
-	if o.GL != nil {
-		f = append(f, fmt.Sprintf(`"gas_limit":"%d"`, *o.GL))
-	}
-	if o.Grace != nil {
-		f = append(f, fmt.Sprintf(`"grace":"%d"`, *o.Grace))
-	}
-	if o.Min != nil {
-		f = append(f, fmt.Sprintf(`"min_value":"%s"`, *o.Min))
-	}
-	return f
-}
-
-func relaysJSON(rs map[string]*relay, proposerLevel bool) string {
-	addrs := make([]string, 0, len(rs))
-	for a := range rs {
-		addrs = append(addrs, a)
-	}
-	sort.Strings(addrs)
-	var parts []string
-	for _, a := range addrs {
-		r := rs[a]
-		f := r.opts.fields()
-		if r.Pub != nil {
-			f = append(f, fmt.Sprintf(`"public_key":"%#x"`, pubOf(*r.Pub)))
-		}
-		if proposerLevel && r.Disabled {
-			f = append(f, `"disabled":true`)
-		}
-		parts = append(parts, fmt.Sprintf(`%q:{%s}`, a, strings.Join(f, ",")))
-	}
-	return "{" + strings.Join(parts, ",") + "}"
-}
-
-func (d *doc2) JSON() string {
-	f := []string{`"version":2`}
-	f = append(f, d.opts.fields()...)
-	if d.Relays != nil {
-		f = append(f, `"relays":`+relaysJSON(d.Relays, false))
-	}
-	if d.Proposers != nil {
-		var ps []string
-		for _, p := range d.Proposers {
-			pf := []string{fmt.Sprintf(`"proposer":%q`, p.Proposer)}
-			pf = append(pf, p.opts.fields()...)
-			if p.Reset {
-				pf = append(pf, `"reset_relays":true`)
-			}
-			if p.Relays != nil {
-				pf = append(pf, `"relays":`+relaysJSON(p.Relays, true))
-			}
-			ps = append(ps, "{"+strings.Join(pf, ",")+"}")
-		}
-		f = append(f, `"proposers":[`+strings.Join(ps, ",")+"]")
-	}
-	return "{" + strings.Join(f, ",") + "}"
-}
-
-// ---- reference resolver ----
-
-type rrelay struct {
-	FR    bellatrix.ExecutionAddress
-	GL    uint64
-	Grace time.Duration
-	Min   decimal.Decimal // wei
-	Pub   *phase0.BLSPubKey
-}
-
-type resolved struct {
-	FR     bellatrix.ExecutionAddress
-	Relays map[string]*rrelay
-}
-
-var weiPerETH = decimal.New(1, 18)
-
-func minWei(s string) decimal.Decimal {
-	d, err := decimal.NewFromString(s)
-	if err != nil {
-		panic(err)
-	}
-	return d.Mul(weiPerETH)
-}
-
-func applyOpts(r *rrelay, o *opts) {
-	if o.FR != nil {
-		r.FR = frAddr(*o.FR)
-	}
-	if o.GL != nil {
-		r.GL = *o.GL
-	}
-	if o.Grace != nil {
-		r.Grace = time.Duration(*o.Grace) * time.Millisecond
-	}
-	if o.Min != nil {
-		r.Min = minWei(*o.Min)
-	}
-}
-
-// fullMatch: the account expression, anchored at both ends as a whole.
-func fullMatch(expr string, name string) bool {
-	e := strings.TrimSuffix(strings.TrimPrefix(expr, "^"), "$")
-	re := regexp.MustCompile("^(?:" + e + ")$")
-	return re.MatchString(name)
-}
-
-func (d *doc2) resolve(pubkey phase0.BLSPubKey, name string, fFR bellatrix.ExecutionAddress, fGL uint64) *resolved {
-	res := &resolved{FR: fFR, Relays: map[string]*rrelay{}}
-	if d.FR != nil {
-		res.FR = frAddr(*d.FR)
-	}
-	base := &rrelay{FR: res.FR, GL: fGL}
-	applyOpts(base, &opts{GL: d.GL, Grace: d.Grace, Min: d.Min})
-	for addr, b := range d.Relays {
-		r := *base
-		applyOpts(&r, &b.opts)
-		if b.Pub != nil {
-			p := pubOf(*b.Pub)
-			r.Pub = &p
-		}
-		res.Relays[addr] = &r
-	}
-	var P *proposer
-	for _, p := range d.Proposers {
-		if p.KeyNo >= 0 {
-			if pubOf(p.KeyNo) == pubkey {
-				P = p
-				break
-			}
-		} else if fullMatch(p.Proposer, name) {
-			P = p
-			break
-		}
-	}
-	if P == nil {
-		return res
-	}
-	if P.FR != nil {
-		res.FR = frAddr(*P.FR)
-	}
-	for _, r := range res.Relays {
-		applyOpts(r, &P.opts)
-	}
-	if P.Reset {
-		res.Relays = map[string]*rrelay{}
-	}
-	for addr, pr := range P.Relays {
-		if pr.Disabled {
-			delete(res.Relays, addr)
-			continue
-		}
-		if r, ok := res.Relays[addr]; ok {
-			applyOpts(r, &pr.opts)
-			if pr.Pub != nil {
-				p := pubOf(*pr.Pub)
-				r.Pub = &p
-			}
-			continue
-		}
-		// new relay: r.X ?? P.X ?? D.X ?? fallback
-		r := &rrelay{FR: fFR, GL: fGL}
-		applyOpts(r, &d.opts)
-		applyOpts(r, &P.opts)
-		applyOpts(r, &pr.opts)
-		if pr.Pub != nil {
-			p := pubOf(*pr.Pub)
-			r.Pub = &p
-		}
-		res.Relays[addr] = r
-	}
-	return res
-}
-
-func diff(want *resolved, got *beaconblockproposer.ProposerConfig) string {
-	if got == nil {
-		return "nil config"
-	}
-	if got.FeeRecipient != want.FR {
-		return fmt.Sprintf("fee recipient %#x, want %#x", got.FeeRecipient, want.FR)
-	}
-	seen := map[string]bool{}
-	for _, r := range got.Relays {
-		if seen[r.Address] {
-			return "relay listed twice: " + r.Address
-		}
-		seen[r.Address] = true
-		w, ok := want.Relays[r.Address]
-		if !ok {
-			return "unexpected relay " + r.Address
-		}
-		if r.FeeRecipient != w.FR {
-			return fmt.Sprintf("relay %s fee recipient %#x, want %#x", r.Address, r.FeeRecipient, w.FR)
-		}
-		if r.GasLimit != w.GL {
-			return fmt.Sprintf("relay %s gas limit %d, want %d", r.Address, r.GasLimit, w.GL)
-		}
-		if r.Grace != w.Grace {
-			return fmt.Sprintf("relay %s grace %v, want %v", r.Address, r.Grace, w.Grace)
-		}
-		if !r.MinValue.Equal(w.Min) {
-			return fmt.Sprintf("relay %s min value %s wei, want %s wei", r.Address, r.MinValue.String(), w.Min.String())
-		}
-		switch {
-		case (r.PublicKey == nil) != (w.Pub == nil):
-			return fmt.Sprintf("relay %s public key presence differs", r.Address)
-		case r.PublicKey != nil && *r.PublicKey != *w.Pub:
-			return fmt.Sprintf("relay %s public key differs", r.Address)
-		}
-	}
-	for a := range want.Relays {
-		if !seen[a] {
-			return "missing relay " + a
-		}
-	}
-	return ""
-}
-
-// ---- generators ----
-
-var relayAddrs = []string{"https://relay1.com/", "https://relay2.com/", "https://relay3.com/", "https://relay4.com/"}
-
-var minValues = []string{"0", "0.1", "0.2", "1", "0.000000000000000001", "0.00000000000000005", "0.000000000000000123", "12.5", "0.4", "0.000001"}
-
-func genOpts(r *rand.Rand, p int) opts {
-	var o opts
-	if r.Intn(100) < p {
-		v := 1 + r.Intn(60)
-		o.FR = &v
-	}
-	if r.Intn(100) < p {
-		v := uint64(1000000 * (1 + r.Intn(60)))
-		if r.Intn(8) == 0 {
-			v = 0 // explicit zero is a value
-		}
-		o.GL = &v
-	}
-	if r.Intn(100) < p {
-		v := int64(r.Intn(5) * 250)
-		o.Grace = &v
-	}
-	if r.Intn(100) < p {
-		v := minValues[r.Intn(len(minValues))]
-		o.Min = &v
-	}
-	return o
-}
-
-func genRelays(r *rand.Rand, proposerLevel bool) map[string]*relay {
-	if r.Intn(4) == 0 {
-		return nil
-	}
-	rs := map[string]*relay{}
-	for _, a := range relayAddrs {
-		if r.Intn(2) == 0 {
-			continue
-		}
-		rl := &relay{opts: genOpts(r, 35)}
-		if r.Intn(3) == 0 {
-			v := r.Intn(4)
-			rl.Pub = &v
-		}
-		if proposerLevel && r.Intn(4) == 0 {
-			rl.Disabled = true
-		}
-		rs[a] = rl
-	}
-	return rs
-}
-
-type validator struct {
-	KeyNo  int
-	Wallet string // "" => no account (nil)
-	Acct   string
-	NoWalletProvider bool
-}
-
-var wallets = []string{"Wallet 1", "Wallet 2", "Wallet 11", "XWallet 1"}
-var acctNames = []string{"Account 1", "Account 2", "Account 3", "Account 22", "Account 1x"}
-
-var exprs = []string{
-	"Wallet 1/Account 1", "Wallet 1/.*", "Wallet [12]/Account [123]", "(Wallet 1|Wallet 2)/Account 1", ".*", "Wallet 2/Account (1|2)",
-	"Wallet 1/Account .", "Wallet 1.*", ".*/Account 2", "Wallet 1/Account 2?", "<unknown>/Account 1", "<unknown>/.*",
-}
-
-func genDoc(r *rand.Rand) *doc2 {
-	d := &doc2{opts: genOpts(r, 50), Relays: genRelays(r, false)}
-	n := r.Intn(5)
-	if n > 0 || r.Intn(2) == 0 {
-		d.Proposers = []*proposer{}
-	}
-	for i := 0; i < n; i++ {
-		p := &proposer{KeyNo: -1, opts: genOpts(r, 40), Reset: r.Intn(4) == 0, Relays: genRelays(r, true)}
-		if r.Intn(2) == 0 {
-			p.KeyNo = r.Intn(4)
-			p.Proposer = fmt.Sprintf("%#x", pubOf(p.KeyNo))
-		} else {
-			e := exprs[r.Intn(len(exprs))]
-			switch r.Intn(4) {
-			case 1:
-				e = "^" + e
-			case 2:
-				e = e + "$"
-			case 3:
-				e = "^" + e + "$"
-			}
-			p.Proposer = e
-		}
-		d.Proposers = append(d.Proposers, p)
-	}
-	return d
-}
-
-type acct struct {
-	e2wtypes.Account
-}
-
-func mkAccount(v validator) e2wtypes.Account {
-	if v.Wallet == "" {
-		return nil
-	}
-	a := harness.NewAcct(harness.KindPlain, v.Wallet, v.Acct, v.KeyNo, 0, nil)
-	if v.NoWalletProvider {
-		return acct{a} // hides Wallet()
-	}
-	return a
-}
-
-func accountName(v validator) string {
-	switch {
-	case v.Wallet == "":
-		return "<unknown>/<unknown>"
-	case v.NoWalletProvider:
-		return "<unknown>/" + v.Acct
-	default:
-		return v.Wallet + "/" + v.Acct
-	}
-}
-
-func genValidators(r *rand.Rand) []validator {
-	var vs []validator
-	for i := 0; i < 6; i++ {
-		v := validator{KeyNo: r.Intn(5), Wallet: wallets[r.Intn(len(wallets))], Acct: acctNames[r.Intn(len(acctNames))]}
-		switch r.Intn(10) {
-		case 0:
-			v.Wallet = ""
-		case 1:
-			v.NoWalletProvider = true
-		}
-		vs = append(vs, v)
-	}
-	return vs
-}
-
-// ---- legacy (v1) ----
-
-type v1entry struct {
-	FR      int
-	GL      *uint64
-	Builder *struct {
-		Enabled bool
-		Grace   *int64
-		Relays  []string
-	}
-}
-
-type doc1 struct {
-	Default  v1entry
-	Proposer map[int]*v1entry
-}
-
-func (e *v1entry) JSON() string {
-	f := []string{fmt.Sprintf(`"fee_recipient":"%s"`, frHex(e.FR))}
-	if e.GL != nil {
-		f = append(f, fmt.Sprintf(`"gas_limit":"%d"`, *e.GL))
-	}
-	if e.Builder != nil {
-		bf := []string{fmt.Sprintf(`"enabled":%v`, e.Builder.Enabled)}
-		if e.Builder.Grace != nil {
-			bf = append(bf, fmt.Sprintf(`"grace":"%d"`, *e.Builder.Grace))
-		}
-		if e.Builder.Relays != nil {
-			b, _ := json.Marshal(e.Builder.Relays)
-			bf = append(bf, `"relays":`+string(b))
-		}
-		f = append(f, `"builder":{`+strings.Join(bf, ",")+"}")
-	}
-	return "{" + strings.Join(f, ",") + "}"
-}
-
-func (d *doc1) JSON() string {
-	var ps []string
-	keys := make([]int, 0)
-	for k := range d.Proposer {
-		keys = append(keys, k)
-	}
-	sort.Ints(keys)
-	for _, k := range keys {
-		ps = append(ps, fmt.Sprintf(`"%#x":%s`, pubOf(k), d.Proposer[k].JSON()))
-	}
-	s := `{"default_config":` + d.Default.JSON()
-	if d.Proposer != nil {
-		s += `,"proposer_config":{` + strings.Join(ps, ",") + "}"
-	}
-	return s + "}"
-}
-
-func genV1Entry(r *rand.Rand) v1entry {
-	e := v1entry{FR: 1 + r.Intn(60)}
-	if r.Intn(2) == 0 {
-		v := uint64(1000000 * (1 + r.Intn(60)))
-		e.GL = &v
-	}
-	if r.Intn(4) != 0 {
-		b := &struct {
-			Enabled bool
-			Grace   *int64
-			Relays  []string
-		}{Enabled: r.Intn(3) != 0}
-		if r.Intn(2) == 0 {
-			v := int64(r.Intn(5) * 250)
-			b.Grace = &v
-		}
-		n := r.Intn(4)
-		if b.Enabled && n == 0 {
-			n = 1
-		}
-		for i := 0; i < n; i++ {
-			b.Relays = append(b.Relays, relayAddrs[(i+r.Intn(2))%len(relayAddrs)])
-		}
-		// de-duplicate
-		seen := map[string]bool{}
-		var rs []string
-		for _, a := range b.Relays {
-			if !seen[a] {
-				seen[a] = true
-				rs = append(rs, a)
-			}
-		}
-		b.Relays = rs
-		e.Builder = b
-	}
-	return e
-}
-
-func (d *doc1) resolve(pubkey phase0.BLSPubKey, fGL uint64) *resolved {
-	e := &d.Default
-	for k, pe := range d.Proposer {
-		if pubOf(k) == pubkey {
-			e = pe
-		}
-	}
-	res := &resolved{FR: frAddr(e.FR), Relays: map[string]*rrelay{}}
-	gl := fGL
-	if e.GL != nil && *e.GL != 0 {
-		gl = *e.GL
-	}
-	if e.Builder != nil && e.Builder.Enabled {
-		for _, a := range e.Builder.Relays {
-			r := &rrelay{FR: res.FR, GL: gl}
-			if e.Builder.Grace != nil {
-				r.Grace = time.Duration(*e.Builder.Grace) * time.Millisecond
-			}
-			res.Relays[a] = r
-		}
-	}
-	return res
-}
 
 func run(c *harness.Ctx) {
 	ctx := context.Background()
 	n := c.N(4000, 350000)
-	fFR := frAddr(999)
+	fFR := refcfg.FRAddr(999)
 	for i := 0; i < n; i++ {
 		id := fmt.Sprintf("v2-%d", i)
 		c.Case(id, func() {
 			r := c.Rand("v2", i)
-			d := genDoc(r)
+			d := refcfg.GenDoc(r)
 			text := d.JSON()
 			fGL := uint64(30000000 + r.Intn(3))
 			cfg, err := blockrelay.UnmarshalJSON([]byte(text))
@@ -574,31 +40,31 @@ func run(c *harness.Ctx) {
 				c.Violate("roundtrip-rejected", "marshalled document does not unmarshal: "+err.Error(), id, map[string]any{"document": text, "marshalled": string(mb)})
 				cfg2 = nil
 			}
-			vs := genValidators(r)
+			vs := refcfg.GenValidators(r)
 			for vi, v := range vs {
 				c.Eval(1)
-				want := d.resolve(pubOf(v.KeyNo), accountName(v), fFR, fGL)
-				got, err := cfg.ProposerConfig(ctx, mkAccount(v), pubOf(v.KeyNo), fFR, fGL)
+				want := d.Resolve(refcfg.PubOf(v.KeyNo), refcfg.AccountName(v), fFR, fGL)
+				got, err := cfg.ProposerConfig(ctx, refcfg.MkAccount(v), refcfg.PubOf(v.KeyNo), fFR, fGL)
 				detail := func(extra string) map[string]any {
-					return map[string]any{"document": text, "validator": v, "account_name": accountName(v), "fallback_gas_limit": fGL, "got": fmt.Sprint(got), "note": extra}
+					return map[string]any{"document": text, "validator": v, "account_name": refcfg.AccountName(v), "fallback_gas_limit": fGL, "got": fmt.Sprint(got), "note": extra}
 				}
 				if err != nil {
 					c.Violate("resolve-error", "ProposerConfig failed on a resolvable document: "+err.Error(), id, detail(""))
 					continue
 				}
-				if df := diff(want, got); df != "" {
-					c.Violate("precedence:"+classify(df), df, id, detail("reference: first matching proposer over relay-level and top-level defaults over fallbacks"))
+				if df := refcfg.Diff(want, got); df != "" {
+					c.Violate("precedence:"+classify(df), df, id, detail("reference: first matching refcfg.Proposer over refcfg.Relay-level and top-level defaults over fallbacks"))
 				}
 				if cfg2 != nil {
-					got2, err := cfg2.ProposerConfig(ctx, mkAccount(v), pubOf(v.KeyNo), fFR, fGL)
+					got2, err := cfg2.ProposerConfig(ctx, refcfg.MkAccount(v), refcfg.PubOf(v.KeyNo), fFR, fGL)
 					if err != nil {
-						c.Violate("roundtrip-resolve-error", err.Error(), id, detail(string(mb)))
+						c.Violate("roundtrip-Resolve-error", err.Error(), id, detail(string(mb)))
 					} else if got != nil {
-						w := &resolved{FR: got.FeeRecipient, Relays: map[string]*rrelay{}}
+						w := &refcfg.Resolved{FR: got.FeeRecipient, Relays: map[string]*refcfg.RRelay{}}
 						for _, rl := range got.Relays {
-							w.Relays[rl.Address] = &rrelay{FR: rl.FeeRecipient, GL: rl.GasLimit, Grace: rl.Grace, Min: rl.MinValue, Pub: rl.PublicKey}
+							w.Relays[rl.Address] = &refcfg.RRelay{FR: rl.FeeRecipient, GL: rl.GasLimit, Grace: rl.Grace, Min: rl.MinValue, Pub: rl.PublicKey}
 						}
-						if df := diff(w, got2); df != "" {
+						if df := refcfg.Diff(w, got2); df != "" {
 							c.Violate("roundtrip:"+classify(df), "after marshal/unmarshal: "+df, id, detail(string(mb)))
 						}
 					}
@@ -629,11 +95,11 @@ func run(c *harness.Ctx) {
 		id := fmt.Sprintf("v1-%d", i)
 		c.Case(id, func() {
 			r := c.Rand("v1", i)
-			d := &doc1{Default: genV1Entry(r)}
+			d := &refcfg.Doc1{Default: refcfg.GenV1Entry(r)}
 			if r.Intn(3) != 0 {
-				d.Proposer = map[int]*v1entry{}
+				d.Proposer = map[int]*refcfg.V1Entry{}
 				for k := 0; k < r.Intn(4); k++ {
-					e := genV1Entry(r)
+					e := refcfg.GenV1Entry(r)
 					d.Proposer[r.Intn(4)] = &e
 				}
 			}
@@ -653,17 +119,17 @@ func run(c *harness.Ctx) {
 			}
 			for k := 0; k < 5; k++ {
 				c.Eval(1)
-				want := d.resolve(pubOf(k), fGL)
+				want := d.Resolve(refcfg.PubOf(k), fGL)
 				for pass, cf := range []blockrelay.ExecutionConfigurator{cfg, cfg2} {
 					if cf == nil {
 						continue
 					}
-					got, err := cf.ProposerConfig(ctx, nil, pubOf(k), fFR, fGL)
+					got, err := cf.ProposerConfig(ctx, nil, refcfg.PubOf(k), fFR, fGL)
 					if err != nil {
 						c.Violate("resolve-error", err.Error(), id, map[string]any{"document": text})
 						continue
 					}
-					if df := diff(want, got); df != "" {
+					if df := refcfg.Diff(want, got); df != "" {
 						key := "legacy:" + classify(df)
 						if pass == 1 {
 							key = "legacy-roundtrip:" + classify(df)
@@ -678,13 +144,13 @@ func run(c *harness.Ctx) {
 	}
 }
 
-func matchIdx(d *doc2, v validator) int {
+func matchIdx(d *refcfg.Doc2, v refcfg.Validator) int {
 	for i, p := range d.Proposers {
 		if p.KeyNo >= 0 {
 			if p.KeyNo == v.KeyNo {
 				return i
 			}
-		} else if fullMatch(p.Proposer, accountName(v)) {
+		} else if refcfg.FullMatch(p.Proposer, refcfg.AccountName(v)) {
 			return i
 		}
 	}
@@ -699,10 +165,10 @@ func classify(df string) string {
 
 func main() {
 	harness.Main(&harness.Spec{
-		Property: "C10",
-		Level:    "exploration",
-		Rule:     "documents from a grammar over the presence lattice (every optional field at top/relay/proposer/proposer-relay level, relay sets, ordered proposer lists with overlapping key and account-expression entries with/without anchors, reset/disabled, min values down to 1 wei) x 6 validators each (keys, wallet/account names incl. near misses, no account, account without wallet); legacy documents x 5 keys; each resolved by the real code and by the reference, and again after Marshal->Unmarshal. distinct = presence pattern of top level + matched proposer entry; non-trivial = document has relays or a matching proposer entry",
-		Run:      run,
+		Property:    "C10",
+		Level:       "exploration",
+		Rule:        "documents from a grammar over the presence lattice (every optional field at top/refcfg.Relay/refcfg.Proposer/refcfg.Proposer-refcfg.Relay level, refcfg.Relay sets, ordered refcfg.Proposer lists with overlapping key and account-expression entries with/without anchors, reset/disabled, min values down to 1 wei) x 6 validators each (keys, wallet/account names incl. near misses, no account, account without wallet); legacy documents x 5 keys; each refcfg.Resolved by the real code and by the reference, and again after Marshal->Unmarshal. distinct = presence pattern of top level + matched refcfg.Proposer entry; non-trivial = document has relays or a matching refcfg.Proposer entry",
+		Run:         run,
 		MinDistinct: 200,
 		Assumptions: []string{"account expressions contain no top-level bare alternation (anchoring of `a|b` is judged under C13)", "fee recipients are non-zero", "unmentioned inherited relays are kept (statement), not dropped (one sentence of docs/executionconfig.md)"},
 	})
